@@ -15,6 +15,7 @@ func runC07(c *Ctx) {
 	c.Clause("C07.3 duplicate test dominates frame handling for both header forms; the trackers refuse packets that are not new; per-level dispatch tables agree")
 	c.Clause("C07.4 ACK timing structure: an ack-eliciting 1-RTT packet leaves with an ACK queued or the alarm set to rcvTime+maxAckDelay; Initial/Handshake ACKs are not gated; the four immediate-ACK triggers exist")
 	c.Clause("C07.5 decision predicates of the forget-below pruning and of the gap-reveal / gap-fill ACK triggers (isMissing, hasNewMissingPackets, DeleteBelow trim and whole-range deletion) have the frozen shapes")
+	c.Clause("C07.6 GetAckFrame decides alarm expiry on ackAlarm, the field GetAlarmTimeout reports")
 	c.NotCovered("interval-list algebra (merge/insert/prune correctness), HighestMissingUpTo")
 	c.NotCovered("that ranges are disjoint and include the largest received, as a value-level fact")
 
@@ -23,6 +24,7 @@ func runC07(c *Ctx) {
 	c.rule("C07.3", func() { c07Duplicates(c, "C07.3") })
 	c.rule("C07.4", func() { c07Timing(c) })
 	c.rule("C07.5", func() { c07Predicates(c) })
+	c.rule("C07.6", func() { c07AlarmAgreement(c) })
 }
 
 func c07Ranges(c *Ctx) {
